@@ -152,8 +152,8 @@ PROPS = {
             "every Idle/Defunct/reset moves the token on; becoming active starts exactly one loop per kind in the current epoch": "theorem (full): epoch_changes_bump_token, token_moves, loops_started_on_connect, periodic_announce_rearms",
             "set_config cannot change probe timing nor enable a periodic task": "theorem (full, over the generated guard): set_config_cannot_enable_loops",
             "Timer ordering helper: SendIndirectProbe before ProbeRandomMember, injective on kinds": "theorem (full, over the generated Timer::seq): indirect_sorts_before_probe, seq_separates_kinds",
-            "exactly one outstanding probe timer while active, none effective otherwise (whole histories)": "theorem (full for the probe loop; timers delivered exactly once, in any order, interleaved with any calls; assumptions as in the property: the u8 token does not wrap onto an outstanding timer [FreshFor, fewer than 256 epoch changes per call], no send of a probe round fails with Encode): C13H.exactly_one_probe_timer over C13H.ProbeHistory; steps C13H.probe_loop_step_other, C13H.probe_loop_step_probe; Proofs/Timers.lean (TimInv with a ghost epoch counter in the model state, probeRandomMember_rearms), Proofs/Quiet.lean",
-            "exactly one outstanding timer per enabled periodic task; no error under deadline-order delivery": "partial: per call (loops_started_on_connect, periodic_announce_rearms, stale_timer_is_noop); over histories by search (exactly-once timer queue simulation, in-order and random delivery, interleaved epoch-changing calls) and correspondence",
+            "exactly one outstanding probe timer and one per enabled periodic task while active, none effective otherwise (whole histories)": "theorem (full for all four loops; timers delivered exactly once, in any order, interleaved with any calls including set_config; assumptions as in the property: the u8 token does not wrap onto an outstanding timer [FreshFor, fewer than 256 epoch changes per call], no send of a probe round fails with Encode): C13H.exactly_one_timer_per_loop over C13H.LoopHistory, corollaries exactly_one_probe_timer, exactly_one_timer_per_enabled_task; steps loop_step_other, loop_step_probe, loop_step_periodic; Proofs/Timers.lean (TimInv per loop kind with a ghost epoch counter in the model state; probeRandomMember_rearms, periodic*_round), Proofs/Quiet.lean",
+            "no error under deadline-order delivery": "partial: validate_only_needs_indirect_stage, indirect_sorts_before_probe per call; over histories by search (exactly-once timer queue simulation, in-order and random delivery) and correspondence",
         },
         RULE_HIST + "search: histories in which every timer the instance schedules is delivered exactly once (in deadline order or in random order), interleaved with datagrams and API calls; outstanding timers per epoch counted after every call.",
         ["the runtime delivers each scheduled timer exactly once; fewer than 256 epoch changes between issue and delivery", "FitsAllHeaders (an Encode error in probe_random_member loses the probe loop: the crate's own NEEDSWORK)"],
